@@ -66,9 +66,17 @@ def duration(c):
         except Exception: return "raised"
 
 
+class DaySet(set): pass
 def next_run(c):
     with time_machine.travel(at(c["now"]), tick=False):
-        try: txt = tools.pretty_next_run(c["start"], {DAYS[i] for i in c["days"]})
+        # the day set as a set, a frozenset, a set subclass; positionally or with the parameters named
+        ds = {DAYS[i] for i in c["days"]}; v = (int(c["now"]) // 60 + len(c["days"])) % 5
+        try:
+            if v == 1: txt = tools.pretty_next_run(c["start"], frozenset(ds))
+            elif v == 2: txt = tools.pretty_next_run(c["start"], DaySet(ds))
+            elif v == 3: txt = tools.pretty_next_run(start_time=c["start"], days=ds)
+            elif v == 4: txt = tools.pretty_next_run(days=ds, start_time=c["start"])
+            else: txt = tools.pretty_next_run(c["start"], ds)
         except Exception: txt = "raised"
         # the text as applications get it: the `display` of a schedule object (a recurring schedule with these days and this start)
         if txt != "raised" and (int(c["now"]) // 60 + len(c["days"]) + sum(map(ord, c["start"]))) % 2 == 0:
